@@ -18,106 +18,133 @@ CONSTANT File
 Data == ndJsonDeserialize(File)
 MaxBads == 400
 
-VARIABLES idx, pos, xs, bads, stop
-vars == <<idx, pos, xs, bads, stop>>
+VARIABLES idx, pos, xs, ex, bads, stop
+vars == <<idx, pos, xs, ex, bads, stop>>
 
 Init ==
     /\ idx \in 1..Len(Data)
     /\ pos = 1
     /\ xs = <<>>
+    /\ ex = {}
     /\ bads = <<>>
     /\ stop = ""
 
 Ev == Data[idx].ev
 Keys == Data[idx].keys
 
-(* rd[1] is t[0], rd[i+1] is t[i] *)
+(* rd[i] is t[rdfrom + i - 1]; rdfrom = 0 except for long lists (window around the end) *)
 RdList(e, n) == [i \in 1..n |-> e.rd[i + 1]]
-RdBad(e, ys) == {i \in 1..Len(e.rd) : e.rd[i] # At(ys, i - 1)}
+RdBad(e, ys, ex2) == {i \in 1..Len(e.rd) : e.rd[i] # TAt(ys, ex2, e.rdfrom + i - 1)}
+RdCovers(e, n) == e.rdfrom <= n + 1 /\ e.rdfrom + Len(e.rd) - 1 >= n + 2
 (* the list the real table holds, if it is one inside the window *)
 RdLen(e) == LET P == {k \in 0..(Len(e.rd) - 1) : \A i \in 1..k : e.rd[i + 1] # Nil}
             IN CHOOSE k \in P : \A l \in P : l <= k
-RdIsList(e) == LET k == RdLen(e) IN
+RdIsList(e, ex2) == LET k == RdLen(e) IN
+    /\ e.rdfrom = 0
+    /\ HoleKeys(ex2) = {}
     /\ k <= Len(e.rd) - 2
-    /\ e.rd[1] = Nil
+    /\ e.rd[1] = ExGet(ex2, <<"n", 0>>)
     /\ \A i \in (k + 2)..Len(e.rd) : e.rd[i] = Nil
     /\ e.len = k
 
-QueryOK(q, ys) ==
-    IF q.q = "concat"
-    THEN LET r == Concat(ys, q.sep, q.i, q.j) IN q.err = r.err /\ (~r.err => q.r = <<"s", r.s>>)
-    ELSE ~q.err /\ q.rs = Unpack(ys, q.i, q.j)
-QueryExp(q, ys) ==
-    IF q.q = "concat"
-    THEN LET r == Concat(ys, q.sep, q.i, q.j) IN [q |-> "concat", err |-> r.err, at |-> r.at, s |-> r.s, n |-> Len(ys)]
-    ELSE [q |-> "unpack", err |-> FALSE, at |-> 0, s |-> "", n |-> Len(ys)]
+(* with a key beyond a hole #t may be any border *)
+IsBorderT(ys, ex2, b) ==
+    /\ b >= 0
+    /\ (b = 0 \/ TAt(ys, ex2, b) # Nil)
+    /\ TAt(ys, ex2, b + 1) = Nil
+LenOK(ys, ex2, l) == IF HoleKeys(ex2) = {} THEN l = Len(ys) ELSE IsBorderT(ys, ex2, l)
 
-(* first inadmissible read-back of event e against the expected list ys, or <<>> *)
-ObsWhy(e, ys) ==
-    CASE RdBad(e, ys) # {} -> <<"rd", [n |-> Len(ys), at |-> (CHOOSE i \in RdBad(e, ys) : \A j \in RdBad(e, ys) : i <= j) - 1]>>
-      [] e.len # Len(ys)   -> <<"len", [n |-> Len(ys), got |-> e.len]>>
-      [] e.getn # GetN(ys) -> <<"getn", [n |-> Len(ys), got |-> e.getn]>>
-      [] e.maxn # MaxN(ys) -> <<"maxn", [n |-> Len(ys), got |-> e.maxn]>>
+(* queries that use the default range depend on #t: not judged while a key beyond a hole exists *)
+Judged(q, ex2) == HoleKeys(ex2) = {} \/ (q.i # Nil /\ q.j # Nil)
+QueryOK(q, ys, ex2) ==
+    IF ~Judged(q, ex2) THEN TRUE
+    ELSE IF q.q = "concat"
+    THEN LET r == Concat(ys, ex2, q.sep, q.i, q.j) IN q.err = r.err /\ (~r.err => q.r = <<"s", r.s>>)
+    ELSE IF q.q = "concatd"
+    THEN LET r == ConcatDigest(ys, ex2, q.sepb, q.i, q.j)
+         IN r.sup /\ q.err = r.err /\ (~r.err => q.len = r.d.len /\ q.h1 = r.d.h1 /\ q.h2 = r.d.h2)
+    ELSE ~q.err /\ q.rs = Unpack(ys, ex2, q.i, q.j)
+QueryExp(q, ys, ex2) ==
+    IF q.q = "concat"
+    THEN LET r == Concat(ys, ex2, q.sep, q.i, q.j) IN [q |-> "concat", err |-> r.err, at |-> r.at, s |-> r.s, n |-> Len(ys), sup |-> TRUE]
+    ELSE IF q.q = "concatd"
+    THEN LET r == ConcatDigest(ys, ex2, q.sepb, q.i, q.j)
+         IN [q |-> "concatd", err |-> r.err, at |-> r.d.len, s |-> ToString(r.d.h1) \o ":" \o ToString(r.d.h2), n |-> Len(ys), sup |-> r.sup]
+    ELSE [q |-> "unpack", err |-> FALSE, at |-> 0, s |-> "", n |-> Len(ys), sup |-> TRUE]
+
+(* first inadmissible read-back of event e against the expected table (ys, ex2), or <<>> *)
+XkExp(ys, ex2, k) == IF k[1] = "n" THEN TAt(ys, ex2, k[2]) ELSE ExGet(ex2, k)
+XkBad(e, ys, ex2) == {i \in 1..Len(e.xk) : e.xk[i][2] # XkExp(ys, ex2, e.xk[i][1])}
+ObsWhy(e, ys, ex2) ==
+    CASE ~LenOK(ys, ex2, e.len)   -> <<"len", [n |-> Len(ys), got |-> e.len]>>
+      [] ~LenOK(ys, ex2, e.getn)  -> <<"getn", [n |-> Len(ys), got |-> e.getn]>>
+      [] ~RdCovers(e, Len(ys))    -> <<"window", [n |-> Len(ys)]>>
+      [] RdBad(e, ys, ex2) # {}   -> <<"rd", [n |-> Len(ys), at |-> e.rdfrom + (CHOOSE i \in RdBad(e, ys, ex2) : \A j \in RdBad(e, ys, ex2) : i <= j) - 1]>>
+      [] XkBad(e, ys, ex2) # {}   -> <<"xk", [n |-> Len(ys), k |-> e.xk[CHOOSE i \in XkBad(e, ys, ex2) : TRUE][1]]>>
+      [] e.maxn # MaxN(ys, ex2)   -> <<"maxn", [n |-> Len(ys), got |-> e.maxn, exp |-> MaxN(ys, ex2)]>>
       [] OTHER -> <<>>
 
-(* the rejected queries of the battery of e, judged against the list zs: the  *)
-(* first one of every signature (kind of call, error or not, expected error or *)
-(* not, index arguments inside or outside the list, type of the result)        *)
-QSig(q, zs) ==
-    <<q.q, q.err, QueryExp(q, zs).err,
+(* the rejected queries of the battery of e, judged against the table (zs, ex2): the *)
+(* first one of every signature (kind of call, error or not, expected error or not,  *)
+(* index arguments inside or outside the list, type of the result)                   *)
+QSig(q, zs, ex2) ==
+    <<q.q, q.err, QueryExp(q, zs, ex2).err,
       q.i # Nil /\ (q.i[2] < 1 \/ q.i[2] > Len(zs)),
       q.j # Nil /\ q.j[2] > Len(zs),
       IF q.q = "concat" THEN q.r[1] ELSE "">>
-RECURSIVE QBads(_, _, _, _)
-QBads(e, zs, k, seen) ==
+RECURSIVE QBads(_, _, _, _, _)
+QBads(e, zs, ex2, k, seen) ==
     IF k > Len(e.q) THEN <<>>
-    ELSE IF QueryOK(e.q[k], zs) \/ QSig(e.q[k], zs) \in seen THEN QBads(e, zs, k + 1, seen)
-    ELSE <<[pos |-> pos, why |-> "q", npre |-> Len(xs), det |-> [k |-> k, exp |-> QueryExp(e.q[k], zs)]]>>
-         \o QBads(e, zs, k + 1, seen \cup {QSig(e.q[k], zs)})
+    ELSE IF QueryOK(e.q[k], zs, ex2) \/ QSig(e.q[k], zs, ex2) \in seen THEN QBads(e, zs, ex2, k + 1, seen)
+    ELSE <<[pos |-> pos, why |-> "q", npre |-> Len(xs), det |-> [k |-> k, exp |-> QueryExp(e.q[k], zs, ex2)]]>>
+         \o QBads(e, zs, ex2, k + 1, seen \cup {QSig(e.q[k], zs, ex2)})
 
 Halt(why) == /\ stop' = why
-             /\ UNCHANGED <<idx, pos, xs, bads>>
+             /\ UNCHANGED <<idx, pos, xs, ex, bads>>
 
-(* go on from the list zs (the battery is judged against it) *)
-Continue(e, zs, newbads) ==
-    LET all == bads \o newbads \o QBads(e, zs, 1, {}) IN
+(* go on from the table (zs, ex2) (the battery is judged against it) *)
+Continue(e, zs, ex2, newbads) ==
+    LET all == bads \o newbads \o QBads(e, zs, ex2, 1, {}) IN
     /\ xs' = zs
+    /\ ex' = ex2
     /\ pos' = pos + 1
     /\ bads' = all
     /\ stop' = IF Len(all) > MaxBads THEN "many" ELSE ""
     /\ idx' = idx
 
 (* the call of event e is rejected: resynchronise on the real list if there is one *)
-Reject(e, why, det) ==
+Reject(e, ex2, why, det) ==
     LET b == <<[pos |-> pos, why |-> why, npre |-> Len(xs), det |-> det]>> IN
-    IF RdIsList(e) THEN Continue(e, RdList(e, RdLen(e)), b)
+    IF why # "window" /\ RdIsList(e, ex2) THEN Continue(e, RdList(e, RdLen(e)), ex2, b)
+    ELSE IF why = "window" THEN Halt("window")
     ELSE /\ bads' = bads \o b
          /\ stop' = "diverged"
-         /\ UNCHANGED <<idx, pos, xs>>
+         /\ UNCHANGED <<idx, pos, xs, ex>>
 
-Accept(e, ys) ==
-    LET f == ObsWhy(e, ys) IN
-    IF f # <<>> THEN Reject(e, f[1], f[2]) ELSE Continue(e, ys, <<>>)
+Accept(e, ys, ex2) ==
+    LET f == ObsWhy(e, ys, ex2) IN
+    IF f # <<>> THEN Reject(e, ex2, f[1], f[2]) ELSE Continue(e, ys, ex2, <<>>)
 
 Step ==
     /\ stop = ""
     /\ pos <= Len(Ev)
     /\ LET e == Ev[pos]
            n == Len(xs)
-       IN IF ~InDomain(xs, e) THEN Halt("ood")                 \* the history left the property's domain: not judged
-          ELSE IF Len(e.rd) < n + 3 THEN Halt("window")       \* read-back window too small
+           ex2 == PostEx(ex, e)
+       IN IF ~InDomain(xs, ex, e) THEN Halt("ood")             \* the history left the property's domain: not judged
           ELSE IF e.op = "sort"
           THEN IF ~LogFaithful(e.cmp, e.calls, Keys) THEN Halt("sortlog")   \* harness comparator # its definition
+               ELSE IF e.rdfrom # 0 \/ Len(e.rd) < n + 3 THEN Halt("window")   \* read-back window too small
                ELSE LET ys == RdList(e, n)
                         w == SortWhy(xs, e.cmp, e.calls, e.out, ys, Keys)
-                    IN IF w # "" THEN Reject(e, w, [n |-> n])
-                       ELSE IF IsPerm(xs, ys) THEN Accept(e, ys)
+                    IN IF w # "" THEN Reject(e, ex2, w, [n |-> n])
+                       ELSE IF IsPerm(xs, ys) THEN Accept(e, ys, ex2)
                        \* an admissible error of a misbehaving lt promises nothing about the contents
-                       ELSE IF RdIsList(e) THEN Continue(e, RdList(e, RdLen(e)), <<>>)
+                       ELSE IF RdIsList(e, ex2) THEN Continue(e, RdList(e, RdLen(e)), ex2, <<>>)
                        ELSE Halt("unspecified-after-sort-error")
-          ELSE IF e.err THEN Reject(e, "err", [n |-> n])
-          ELSE IF e.res \notin Results(xs, e) THEN Reject(e, "res", [n |-> n])
-          ELSE Accept(e, Post(xs, e))
+          ELSE IF e.err THEN Reject(e, ex2, "err", [n |-> n])
+          ELSE IF e.res \notin Results(xs, e) THEN Reject(e, ex2, "res", [n |-> n])
+          ELSE Accept(e, Post(xs, e), ex2)
 
 Spec == Init /\ [][Step]_vars
 
